@@ -209,7 +209,7 @@ def corr_bech32(ctx, recs, rng):
     q = ctx.tier == "quick"
     b11 = [r["s"] for r in recs if r["k"] == "b11" and r.get("built")]
     b11 = sorted(set(b11), key=len)
-    base = b11[::max(1, len(b11) // (10 if q else 60))][: (10 if q else 60)]
+    base = b11[::max(1, len(b11) // (7 if q else 60))][: (7 if q else 60)]
     strings = []
     ev = Eval(ctx)
     enc_idx = []
@@ -218,7 +218,7 @@ def corr_bech32(ctx, recs, rng):
         strings.append(s.upper())
         n = len(s)
         sep = s.rfind("1")
-        for _ in range(12 if q else 40):
+        for _ in range(10 if q else 40):
             i = rng.below(n)
             kind = rng.below(6)
             c = s[i]
@@ -449,13 +449,13 @@ def corr_merkle(ctx, recs, rng):
     q = ctx.tier == "quick"
     dis = []
     sigs = [r for r in recs if r["k"] == "b12sig"]
-    sigs = sigs[:: max(1, len(sigs) // (20 if q else 150))][: (20 if q else 150)]
+    sigs = sigs[:: max(1, len(sigs) // (12 if q else 150))][: (12 if q else 150)]
     cases = [(r["tag"], r["bytes"], r["root"] + " " + r["digest"]) for r in sigs]
     # synthetic well-formed streams: 1..N records (all tree shapes), signature-range records interleaved,
     # multi-byte types; evaluated by the library through the hook
     ev = Eval(ctx)
     synth = []
-    sizes = list(range(1, 20)) + [31, 32, 33] if q else list(range(1, 70))
+    sizes = (list(range(1, 14)) + [16, 17, 32, 33]) if q else list(range(1, 70))
     for n in sizes:
         t = rng.below(3)
         b = b""
@@ -499,7 +499,7 @@ def corr_meta(ctx, recs, rng):
     for r in meta:
         groups.setdefault((r["check"], r["expect"], r["verdict"]), []).append(r)
     sample = []
-    per = 14 if q else 150
+    per = 8 if q else 150
     for k in sorted(groups):
         g = groups[k]
         sample += g[:: max(1, len(g) // per)][:per]
